@@ -103,6 +103,19 @@ BindConserves(sig, cc) ==
         /\ \A i \in 1..sig.npos : ParamVal(sig, cc, i) \in Range(PassedBag(cc)) \/
                                     (i > sig.npos - sig.ndef /\ ParamVal(sig, cc, i) = DefVal(sig, PName(i)))
 
+\* --- the call as WRITTEN -------------------------------------------------------------------------
+\* At the call site the keywords stand in some ORDER.  The statement quantifies over "all ways of splitting a valid
+\* argument set between positional and keyword passing": the keywords of a call are a SET, and every spelling of a
+\* call - the same positional arguments, the same keyword items written in any order - is that call.  (cc.kw above is
+\* the canonical spelling: sorted by name.)  In particular "f's first parameter" (try_back's fallback, the argument
+\* loops and pd2np look at) is the parameter named first in f's SIGNATURE, never the keyword written first.
+IsSpelling(order, cc) == /\ Len(order) = Len(cc.kw)
+                         /\ \A i \in 1..Len(cc.kw) : \E j \in 1..Len(order) : order[j] = cc.kw[i][1]
+Written(cc, order)    == [pos |-> cc.pos, kw |-> [j \in 1..Len(order) |-> <<order[j], KwGet(cc, order[j])>>]]
+\* every order in which n keywords can be written (as sequences of positions of the canonical spelling)
+PermsOf(n) == {p \in [1..n -> 1..n] : \A i, j \in 1..n : p[i] = p[j] => i = j}
+Orders(cc) == {[j \in 1..Len(cc.kw) |-> cc.kw[p[j]][1]] : p \in PermsOf(Len(cc.kw))}
+
 \* ---------------------------------------------------------------------------------------------
 \* (b) wrapper objects
 \* ---------------------------------------------------------------------------------------------
@@ -223,6 +236,20 @@ LawOuts(sig, calls) ==
         LET first == Min({i \in 1..j : calls[i] = calls[j]}) IN
         Result(sig, calls[j], Cardinality({calls[i] : i \in 1..first}))]
 LawEvals(calls) == Cardinality(Range(calls))
+\* (c') SCALE.  Nothing in the two laws above mentions how long the history is or how many distinct combinations it
+\* holds: MemoCall is the law for the 3rd call and for the 3000th (MemoScales: the j-th call of ANY call sequence returns
+\* the result of the first call with these arguments and evaluates f iff there was none - TLC compares MemoCall with
+\* LawOuts / LawEvals on every small sequence, MemoIsLaw; the trace specification folds MemoCall over recorded histories
+\* of hundreds and thousands of distinct combinations followed by repeats of early, middle and late ones).  Likewise
+\* LawOutcome has no memory (TransparentForever): the n-th call on one wrapper object is judged like the first.
+MemoScales(sig, calls) ==
+    LET RECURSIVE Run(_, _, _)
+        Run(i, m, ev) == IF i > Len(calls) THEN TRUE
+                         ELSE LET r == MemoCall(m, ev, sig, calls[i]) IN
+                              /\ r.out = LawOuts(sig, calls)[i]
+                              /\ r.evals = LawEvals(SubSeq(calls, 1, i))
+                              /\ Run(i + 1, r.memo, r.evals)
+    IN Run(1, <<>>, 0)
 \* Named deviation Uncached: an argument that cannot be hashed (list, dict, set) may be evaluated anew
 \* on every call instead of once.
 RECURSIVE Unhashable(_)
